@@ -152,43 +152,58 @@ Proof.
   exact (r_once _ _ _ _ _ _ s (i_rev s I) x y id Hx Hy Kx Ky).
 Qed.
 
-(* same outcome, for retries of the same kind of write: the kind of the stored entry is the kind of the request *)
-Theorem e2_ik_same_outcome_same_kind : forall s, reachable s ->
+(* a success under a key is answered by an entry on disk that IS the outcome of this request in the sense of the
+   code's comparison ([is_outcome_of]: same kind; revert: same reverted transaction; metadata: same target and
+   content) -- whether the request wrote the entry itself or replayed it *)
+Theorem e2_replay_is_own_outcome : forall s, reachable s ->
+  forall t th x, get_thread (threads s) t = Some th -> t_resp th = Some (ROk x) -> rq_dry (t_req th) = false ->
+    rq_ik (t_req th) <> 0%N ->
+    exists e, In e (persisted s) /\ e_ik e = rq_ik (t_req th) /\ e_txid e = x /\ is_outcome_of (t_req th) e = true.
+Proof.
+  intros s Hr t th x Hth Hresp Hdry _. pose proof (e2_inv_reachable s Hr) as I.
+  exact (b_ok s (i_b s I) t (ug th) x (e2_gth_of_get _ _ _ Hth) Hresp Hdry).
+Qed.
+
+(* there is one entry under the key, and a success answers only an entry that is the outcome of this request: THE
+   entry under the key of a successful request carries the answered transaction id and is of the request's kind (for a
+   revert: names the transaction the request reverts; metadata: same target and content) *)
+Theorem e2_ik_same_request : forall s, reachable s ->
   forall t th x e, get_thread (threads s) t = Some th -> t_resp th = Some (ROk x) -> rq_dry (t_req th) = false ->
     rq_ik (t_req th) <> 0%N -> In e (persisted s) -> e_ik e = rq_ik (t_req th) ->
-    same_kind (e_kind e) (rq_kind (t_req th)) = true -> e_txid e = x.
+    e_txid e = x /\ is_outcome_of (t_req th) e = true.
 Proof.
-  intros s Hr t th x e Hth Hresp Hdry Hk He Hik Hkind. pose proof (e2_inv_reachable s Hr) as I.
-  pose proof (e2_gth_of_get _ _ _ Hth) as Hg.
-  destruct (b_ok s (i_b s I) t (ug th) x Hg Hresp Hdry) as [e0 (H0&I0&X0)]. cbn in I0, X0.
+  intros s Hr t th x e Hth Hresp Hdry Hk He Hik. pose proof (e2_inv_reachable s Hr) as I.
+  destruct (e2_replay_is_own_outcome s Hr t th x Hth Hresp Hdry Hk) as [e0 (H0&I0&X0&O0)].
   assert (K : forall z, e_ik z = rq_ik (t_req th) -> eik_key z = Some (rq_ik (t_req th))).
   { intros z Ez. apply e2_eik_key_of; [exact Hk|]. rewrite Ez. apply N.eqb_refl. }
   assert (Eq : e = e0)
     by exact (r_once _ _ _ _ _ _ s (i_ik s I) e e0 _ (e2_persisted_all _ _ He) (e2_persisted_all _ _ H0) (K _ Hik) (K _ I0)).
-  subst e0. destruct X0 as [X0|[X0 _]]; [exact X0|congruence].
+  subst e0. split; assumption.
 Qed.
 
-(* the executable hypothesis: no request shares its key with a persisted entry of another kind of write *)
-Definition ik_kind_consistent_b (s : state) : bool :=
-  forallb (fun p => let rq := t_req (snd p) in
-                    N.eqb (rq_ik rq) 0 ||
-                    forallb (fun e => negb (N.eqb (e_ik e) (rq_ik rq)) || same_kind (e_kind e) (rq_kind rq)) (persisted s))
-          (threads s).
-
-Lemma e2_get_thread_In : forall l t th, get_thread l t = Some th -> In (t, th) l.
+(* same outcome, unconditionally (the full statement of Spec.v) *)
+Theorem e2_ik_same_outcome : forall s, reachable s -> ik_same_outcome s.
 Proof.
-  induction l as [|[u x] r IH]; intros t th H; cbn in H; [discriminate|].
-  destruct (Nat.eqb t u) eqn:E; [apply Nat.eqb_eq in E; inversion H; subst; left; reflexivity|right; apply IH; exact H].
+  intros s Hr t th x e Hth Hresp Hdry Hk He Hik.
+  exact (proj1 (e2_ik_same_request s Hr t th x e Hth Hresp Hdry Hk He Hik)).
 Qed.
 
-Theorem e2_ik_same_outcome_partial : forall s, reachable s -> ik_kind_consistent_b s = true -> ik_same_outcome s.
+(* a revert is never answered from the key: RevertTransaction checks "already reverted" (under its reservation) before
+   the key lookup, so when a revert request looks its key up no entry reverting its target exists -- the entry found
+   under the key, if any, is not the outcome of this request: it is refused *)
+Theorem e2_revert_never_replays : forall s, reachable s -> forall t th e,
+  get_thread (threads s) t = Some th -> t_pc th = PIkLookup (Some e) -> rq_kind (t_req th) = KRevert ->
+  In e (persisted s) /\ e_ik e = rq_ik (t_req th) /\ is_outcome_of (t_req th) e = false.
 Proof.
-  intros s Hr Hc t th x e Hth Hresp Hdry Hk He Hik.
-  apply (e2_ik_same_outcome_same_kind s Hr t th x e Hth Hresp Hdry Hk He Hik).
-  unfold ik_kind_consistent_b in Hc. rewrite forallb_forall in Hc.
-  specialize (Hc _ (e2_get_thread_In _ _ _ Hth)). cbn in Hc.
-  destruct (N.eqb (rq_ik (t_req th)) 0) eqn:Z; [apply N.eqb_eq in Z; contradiction|]. cbn in Hc.
-  rewrite forallb_forall in Hc. specialize (Hc e He). rewrite Hik, N.eqb_refl in Hc. exact Hc.
+  intros s Hr t th e Hth Hpc Hk. pose proof (e2_inv_reachable s Hr) as I.
+  pose proof (e2_gth_of_get _ _ _ Hth) as Hg.
+  destruct (b_look s (i_b s I) t (ug th) e Hg Hpc) as [Hin Hik]. cbn in Hik.
+  split; [exact Hin|]. split; [exact Hik|].
+  destruct (is_outcome_of (t_req th) e) eqn:O; [exfalso|reflexivity].
+  pose proof (e2_outcome_reverts _ _ O Hk) as Rv.
+  assert (K : rev_key (t_req (ug th)) = Some (rq_revert (t_req th))) by (unfold rev_key; cbn; rewrite Hk; reflexivity).
+  exact (r_miss _ _ _ _ _ _ s (i_rev s I) t (ug th) _ Hg K ltac:(cbn; rewrite Hpc; reflexivity) e
+           (e2_persisted_all _ _ Hin) Rv).
 Qed.
 
 (* every entry carries the key, the reference and the revert target of the request that produced it *)
